@@ -73,7 +73,7 @@ int verif_accept(int fd, struct sockaddr *addr, socklen_t *len)
 
 /* ---- collaborators of the connection set-up functions */
 void log_err(const char *f, ...) { (void)f; }
-static int fail_alloc_peer, fail_alloc_bs, fail_alloc_conn, fail_init_conn;
+static int fail_alloc_peer, fail_alloc_bs, fail_alloc_conn, fail_init_conn, fail_init_peer;
 static struct socket_peer PEER;
 static struct buffered_socket BSOCK;
 static struct http_connection CONN;
@@ -83,7 +83,7 @@ struct buffered_socket *buffered_socket_acquire(void) { return fail_alloc_bs ? 0
 struct http_connection *alloc_http_connection(void) { return fail_alloc_conn ? 0 : &CONN; }
 void buffered_socket_init(struct buffered_socket *bs, socket_type sock, struct eventloop *loop, void (*error)(void *), void *ctx)
 { (void)bs; (void)loop; (void)error; (void)ctx; bs_owner_fd = sock; }
-void init_socket_peer(struct socket_peer *p, struct buffered_reader *reader, bool is_local) { (void)p; (void)reader; (void)is_local; peer_inited = 1; }
+int init_socket_peer(struct socket_peer *p, struct buffered_reader *reader, bool is_local) { (void)p; (void)reader; (void)is_local; if (fail_init_peer) return -1; peer_inited = 1; return 0; }
 int init_http_connection(struct http_connection *c, const struct http_server *s, struct buffered_reader *r, bool l)
 { (void)c; (void)s; (void)r; (void)l; if (fail_init_conn) return -1; conn_inited = 1; return 0; }
 void cjet_free(void *p) { (void)p; freed_objs++; }
@@ -95,7 +95,7 @@ static void choose_faults(void)
 	fail_fcntl_get = nd_bool(); fail_fcntl_set = nd_bool(); fail_getsockname = nd_bool();
 	fail_sockopt_at = (int)nd_range(-1, 5);
 	family = (int)nd_range(0, 3) == 0 ? AF_UNIX : (nd_bool() ? AF_INET : AF_INET6);
-	fail_alloc_peer = nd_bool(); fail_alloc_bs = nd_bool(); fail_alloc_conn = nd_bool(); fail_init_conn = nd_bool();
+	fail_alloc_peer = nd_bool(); fail_alloc_bs = nd_bool(); fail_alloc_conn = nd_bool(); fail_init_conn = nd_bool(); fail_init_peer = nd_bool();
 }
 
 /* ================================================================== C07.fd_hygiene */
